@@ -478,7 +478,9 @@ Qed.
 
 (** * Replayed headers *)
 
-(** [handle_replay], restructured into named pieces (definitionally the same function). *)
+(** [handle_replay], restructured into named pieces (definitionally the same function).  The
+    header and its commit proof are validated against the state [replay_jumped s0 cp] (the mirror
+    moved to the replayed round); every rejection returns the ORIGINAL state [s0]. *)
 Definition replay_jumped (s0 : kstate) (cp : cproof) : kstate :=
   jump_until (N.to_nat (cp_round cp - v_r (k_vot s0))) s0 (cp_round cp).
 
@@ -487,14 +489,11 @@ Definition replay_temp (s : kstate) (hd : hdr) (cp : cproof) : pmap * bool :=
       let '(tm, av) := acc in
       let base := match pm_get (v_pc (k_vot s)) (fst e) with Some p => p | None => [] end in
       let '(p', a, _) := merge_sparse KPrecommit (hd_height hd) (cp_round cp) (fst e) (vs_keys (hd_vals hd)) base (snd e) in
-      (pm_set tm (fst e) p', av && a)) (cp_proofs cp) ([], true).
+      (pm_set tm (fst e) p', av && a)) (signed_entries (cp_proofs cp)) ([], true).
 
-Definition replay_finish (s1 : kstate) (hd : hdr) (cp : cproof) (temp : pmap) : res (kstate * N) :=
-  match pm_get temp (hd_hash hd) with
-  | None => Ok (s1, 2)
-  | Some hp =>
-      bind (byz_majority (sm_avail (v_sum (k_vot s1)))) (fun maj =>
-      if proof_power (vs_pows (hd_vals hd)) hp <? maj then Ok (s1, 2) else
+(** applying a validated replay: insertion of the header, the precommits, the shift check *)
+Definition replay_apply (s : kstate) (hd : hdr) (cp : cproof) (temp : pmap) : res (kstate * N) :=
+  bind (replay_insert s hd (cp_round cp)) (fun s1 =>
       let v := k_vot s1 in
       let pc' := fold_left (fun m e => pm_set m (fst e) (snd e)) temp (v_pc v) in
       let v1 := with_pc v pc' in
@@ -502,8 +501,7 @@ Definition replay_finish (s1 : kstate) (hd : hdr) (cp : cproof) (temp : pmap) : 
       let coll := map_to_sparse (vs_pkh (v_vals v2)) pc' in
       let s2 := log_w (set_rounds (set_vot s1 v2) (rs_overwrite_pc (st_rounds s1) (hd_height hd) (cp_round cp) coll))
                       (WPC (hd_height hd) (cp_round cp) coll) in
-      bind (check_voting_precommit_shift s2) (fun s3 => Ok (s3, 0)))
-  end.
+      bind (check_voting_precommit_shift s2) (fun s3 => Ok (s3, 0))).
 
 Definition site_replay_earlier : string := "handleReplayedHeader: TODO: handle replay for earlier round".
 Definition site_replay_fuel : string := "model: out of fuel in the replay round jump".
@@ -514,22 +512,34 @@ Definition handle_replay' (s0 : kstate) (hd : hdr) (cp : cproof) : res (kstate *
   else
   let s := replay_jumped s0 cp in
   if negb ((v_r (k_vot s) =? cp_round cp) && (v_h (k_vot s) =? hd_height hd)) then Panic site_replay_fuel else
-  if negb (hd_ok hd) then Ok (s, 2)
-  else if negb (hd_height hd =? k_init_h s) && negb (bytes_eqb (hd_prev hd) (chdr_hash s)) then Ok (s, 2)
-  else if negb (valset_equal (hd_vals hd) (v_vals (k_vot s)) && vs_ok (hd_vals hd)) then Ok (s, 2)
-  else if negb (vs_ok (hd_next hd)) then Ok (s, 2)
+  if negb (hd_ok hd) then Ok (s0, 2)
+  else if negb (hd_height hd =? k_init_h s) && negb (bytes_eqb (hd_prev hd) (chdr_hash s)) then Ok (s0, 2)
+  else if negb (valset_equal (hd_vals hd) (v_vals (k_vot s)) && vs_ok (hd_vals hd)) then Ok (s0, 2)
+  else if negb (vs_ok (hd_next hd)) then Ok (s0, 2)
   else
   let '(temp, allv) := replay_temp s hd cp in
-  if negb allv then Ok (s, 2) else
-  bind (replay_insert s hd (cp_round cp)) (fun s1 => replay_finish s1 hd cp temp).
+  if negb allv then Ok (s0, 2) else
+  match pm_get temp (hd_hash hd) with
+  | None => Ok (s0, 2)
+  | Some hp =>
+      bind (byz_majority (sm_avail (v_sum (k_vot s)))) (fun maj =>
+      if proof_power (vs_pows (hd_vals hd)) hp <? maj then Ok (s0, 2) else replay_apply s hd cp temp)
+  end.
 
 Lemma handle_replay_eq s0 hd cp : handle_replay s0 hd cp = handle_replay' s0 hd cp.
 Proof. reflexivity. Qed.
 
-(** ** The guard of the one Panic site a replayed header can reach: the header is for the voting
-    height but for a round the mirror has already left *)
+(** ** The guards of the two Panic sites of [handle_replay] *)
+
+(** the header is for the voting height but for a round the mirror has already left *)
 Definition replay_earlier_guard (s0 : kstate) (hd : hdr) (cp : cproof) : bool :=
   (hd_height hd =? v_h (k_vot s0)) && (cp_round cp <? v_r (k_vot s0)).
+
+(** the model's jump loop did not arrive at the replayed round (unreachable for uint32 rounds) *)
+Definition replay_fuel_guard (s0 : kstate) (hd : hdr) (cp : cproof) : bool :=
+  (hd_height hd =? v_h (k_vot s0)) && (v_r (k_vot s0) <=? cp_round cp) &&
+  negb ((v_r (k_vot (replay_jumped s0 cp)) =? cp_round cp) &&
+        (v_h (k_vot (replay_jumped s0 cp)) =? hd_height hd)).
 
 (** ** The jump loop reaches the replayed round (the "out of fuel" site is unreachable) *)
 Lemma jump_round ih ivs s : cinv ih ivs s -> v_r (k_vot s) + 1 < two32 ->
@@ -559,13 +569,23 @@ Lemma replay_jumped_reaches ih ivs s0 cp :
   v_r (k_vot (replay_jumped s0 cp)) = cp_round cp /\ v_h (k_vot (replay_jumped s0 cp)) = v_h (k_vot s0).
 Proof. intros H Hle Hb. apply (jump_until_reaches ih ivs); try assumption. lia. Qed.
 
+Lemma replay_fuel_guard_false ih ivs s0 hd cp :
+  cinv ih ivs s0 -> cp_round cp < two32 -> replay_fuel_guard s0 hd cp = false.
+Proof.
+  intros H Hb. unfold replay_fuel_guard.
+  destruct (N.eqb_spec (hd_height hd) (v_h (k_vot s0))) as [Hh|_]; [|reflexivity].
+  destruct (N.leb_spec (v_r (k_vot s0)) (cp_round cp)) as [Hle|_]; [|reflexivity].
+  destruct (replay_jumped_reaches ih ivs s0 cp H Hle Hb) as [E1 E2].
+  rewrite E1, E2, Hh, !N.eqb_refl. reflexivity.
+Qed.
+
 Lemma tinv_jump_until fuel : forall s r, tinv s -> tinv (jump_until fuel s r).
 Proof.
   induction fuel as [|f IH]; intros s r H; cbn [jump_until]; [exact H|].
   destruct (_ <? _); [|exact H]. apply IH. split; [apply aok_jump, H|apply pok_jump, H].
 Qed.
 
-(** ** Totality of the replay handler outside the guard *)
+(** ** Totality of the replay handler outside the guards *)
 Lemma replay_insert_total s hd r : tinv s ->
   okT (fun s1 => aok s1 /\ (hdr_wf hd -> pok s1)) (replay_insert s hd r).
 Proof.
@@ -578,48 +598,48 @@ Proof.
       apply P; right; exact Hq.
 Qed.
 
-Lemma replay_finish_total s1 hd cp temp : aok s1 ->
-  okT (fun sr => pok s1 -> tinv (fst sr)) (replay_finish s1 hd cp temp).
+Lemma replay_apply_total s hd cp temp : tinv s ->
+  okT (fun sr => snd sr = 0 /\ (hdr_wf hd -> tinv (fst sr))) (replay_apply s hd cp temp).
 Proof.
-  intros H. pose proof H as (A&_&_). unfold replay_finish.
-  assert (Hsame : okT (fun sr : kstate * N => pok s1 -> tinv (fst sr)) (Ok (s1, 2)))
-    by (apply okT_ret; intros Hp; split; assumption).
-  destruct (pm_get temp (hd_hash hd)); [|exact Hsame].
-  destruct (maj_ok _ A) as [maj Hm]. rewrite Hm. cbn [bind].
-  destruct (_ <? maj); [exact Hsame|]. cbv zeta.
+  intros H. unfold replay_apply.
+  eapply okT_bind; [apply replay_insert_total; exact H|]. cbv beta. intros s1 (A1&P1). cbv zeta.
   match goal with |- okT _ (bind (check_voting_precommit_shift ?X) _) => set (s2 := X) end.
   assert (A2 : aok s2).
-  { eapply aok_frame; [| | |exact H]; unfold s2;
+  { eapply aok_frame; [| | |exact A1]; unfold s2;
       cbn [k_vot k_nxt k_chdr log_w set_rounds set_vot v_sum with_sum with_pc]; try reflexivity.
     apply sm_avail_set_precommits. }
   assert (P2 : pok s1 -> pok s2) by (intros Hp; exact Hp).
   eapply okT_bind; [apply check_voting_total; exact A2|].
-  cbv beta. intros s3 Hs3. apply okT_ret. cbn [fst]. intros Hp. apply Hs3, P2, Hp.
+  cbv beta. intros s3 Hs3. apply okT_ret. cbn [fst snd]. split; [reflexivity|].
+  intros Hw. apply Hs3, P2, P1, Hw.
 Qed.
 
+(** No hypothesis on the replayed round here: the handler returns Ok, or one of the two guards
+    holds and it panics at that site.  A rejected replay (result 1 or 2) returns the state it was
+    given; only an applied one (result 0) needs the announced next set to have non-zero power. *)
 Lemma handle_replay_total ih ivs s0 hd cp :
-  INV ih ivs s0 -> tinv s0 -> cp_round cp < two32 ->
-  (okT (fun sr => pow_ok (hd_next hd) -> tinv (fst sr)) (handle_replay s0 hd cp) /\
-   replay_earlier_guard s0 hd cp = false) \/
-  (replay_earlier_guard s0 hd cp = true /\ handle_replay s0 hd cp = Panic site_replay_earlier).
+  INV ih ivs s0 -> tinv s0 ->
+  (okT (fun sr => (snd sr = 0 -> pow_ok (hd_next hd)) -> tinv (fst sr)) (handle_replay s0 hd cp) /\
+   replay_earlier_guard s0 hd cp = false /\ replay_fuel_guard s0 hd cp = false) \/
+  (replay_earlier_guard s0 hd cp = true /\ handle_replay s0 hd cp = Panic site_replay_earlier) \/
+  (replay_fuel_guard s0 hd cp = true /\ handle_replay s0 hd cp = Panic site_replay_fuel).
 Proof.
-  intros HI HT Hb. rewrite handle_replay_eq.
-  unfold handle_replay', replay_earlier_guard.
+  intros HI HT. rewrite handle_replay_eq.
+  unfold handle_replay', replay_earlier_guard, replay_fuel_guard.
+  set (P := fun sr : kstate * N => (snd sr = 0 -> pow_ok (hd_next hd)) -> tinv (fst sr)).
+  assert (Hsame : forall r0, okT P (Ok (s0, r0))) by (intros r0; apply okT_ret; intros _; exact HT).
   destruct (hd_height hd =? v_h (k_vot s0)) eqn:Hh; cbn [negb andb];
-    [|left; split; [apply okT_ret; intros _; exact HT|reflexivity]].
+    [|left; split; [apply Hsame|split; reflexivity]].
   apply N.eqb_eq in Hh.
-  destruct (N.ltb_spec (cp_round cp) (v_r (k_vot s0))) as [Hlt|Hge]; [right; split; reflexivity|].
-  left. split; [|reflexivity]. cbv zeta.
-  destruct (replay_jumped_reaches ih ivs s0 cp (proj1 HI) Hge Hb) as [Er Eh].
+  destruct (N.ltb_spec (cp_round cp) (v_r (k_vot s0))) as [Hlt|Hge]; [right; left; split; reflexivity|].
+  rewrite (proj2 (N.leb_le _ _) Hge). cbn [andb]. cbv zeta.
   pose proof (INV_jump_until ih ivs (N.to_nat (cp_round cp - v_r (k_vot s0))) s0 (cp_round cp) HI) as HIs.
   pose proof (tinv_jump_until (N.to_nat (cp_round cp - v_r (k_vot s0))) s0 (cp_round cp) HT) as HTs.
   fold (replay_jumped s0 cp) in HIs, HTs.
   set (s := replay_jumped s0 cp) in *.
-  assert (Hpos : (v_r (k_vot s) =? cp_round cp) && (v_h (k_vot s) =? hd_height hd) = true).
-  { rewrite Er, Eh, Hh, !N.eqb_refl. reflexivity. }
-  rewrite Hpos. cbn [negb].
-  assert (Hsame : forall r0, okT (fun sr : kstate * N => pow_ok (hd_next hd) -> tinv (fst sr)) (Ok (s, r0)))
-    by (intros r0; apply okT_ret; intros _; exact HTs).
+  destruct ((v_r (k_vot s) =? cp_round cp) && (v_h (k_vot s) =? hd_height hd)); cbn [negb];
+    [|right; right; split; reflexivity].
+  left. split; [|split; reflexivity].
   destruct (hd_ok hd); cbn [negb]; [|apply Hsame].
   destruct (negb (hd_height hd =? k_init_h s) && negb (bytes_eqb (hd_prev hd) (chdr_hash s))); [apply Hsame|].
   destruct (valset_equal (hd_vals hd) (v_vals (k_vot s)) && vs_ok (hd_vals hd)) eqn:Hveq;
@@ -631,74 +651,70 @@ Proof.
   destruct (vs_ok (hd_next hd)); cbn [negb]; [|apply Hsame].
   destruct (replay_temp s hd cp) as [temp allv].
   destruct allv; cbn [negb]; [|apply Hsame].
-  eapply okT_bind; [apply replay_insert_total; exact HTs|]. cbv beta. intros s1 (A1&P1).
-  eapply okT_mono; [apply replay_finish_total; exact A1|].
-  cbv beta. intros sr Hsr Hn. apply Hsr, P1. split; [exact Hvals|exact Hn].
+  destruct (pm_get temp (hd_hash hd)); [|apply Hsame].
+  destruct (maj_ok _ (proj1 (proj1 HTs))) as [maj Hm]. rewrite Hm. cbn [bind].
+  destruct (_ <? maj); [apply Hsame|].
+  eapply okT_mono; [apply replay_apply_total; exact HTs|].
+  cbv beta. intros sr (E&Hsr). unfold P. intros Hn. apply Hsr. split; [exact Hvals|apply Hn; exact E].
 Qed.
 
 (** * Every step *)
 
 (** admissibility, result-independent form: the NEXT validator set a proposed / replayed header
     announces has non-zero total power (the application must not return a validator set of total
-    power 0), and a replayed commit proof's round is a uint32 (it is one in Go; the model's [N]
-    is wider).  Nothing is required of the header's OWN validator set: the kernel compares it with
+    power 0).  Nothing is required of the header's OWN validator set: the kernel compares it with
     the set of the view the header belongs to. *)
 Definition op_wf (o : op) : Prop :=
   match o with
   | OpPH p => pow_ok (hd_next (ph_hdr p))
-  | OpReplay x cp => pow_ok (hd_next x) /\ cp_round cp < two32
+  | OpReplay x cp => pow_ok (hd_next x)
   | _ => True
   end.
 
-(** what the history really needs: only a proposed header that the mirror ACCEPTED must announce
-    a next validator set of non-zero power (rejected ones never enter a view) *)
+(** what the history really needs: only a proposed header that the mirror ACCEPTED and a replayed
+    header that it APPLIED (result 0) must announce a next validator set of non-zero power;
+    rejected ones never enter a view (a rejected replay returns the state unchanged) *)
 Definition step_adm (o : op) (res : N) : Prop :=
   match o with
   | OpPH p => res = HandleProposedHeaderAccepted -> pow_ok (hd_next (ph_hdr p))
-  | OpReplay x cp => pow_ok (hd_next x) /\ cp_round cp < two32
+  | OpReplay x cp => res = 0 -> pow_ok (hd_next x)
   | _ => True
   end.
 
 Lemma op_wf_step_adm o res : op_wf o -> step_adm o res.
 Proof. destruct o; cbn; auto. Qed.
 
+(** a replayed commit proof's round is a uint32 (it is one in Go; the model's [N] is wider) *)
 Definition replay_round_bounded (o : op) : Prop :=
   match o with OpReplay _ cp => cp_round cp < two32 | _ => True end.
 
-Lemma op_wf_round_bounded o : op_wf o -> replay_round_bounded o.
-Proof. destruct o; cbn; tauto. Qed.
-
 Lemma step_total ih ivs s o :
-  INV ih ivs s -> tinv s -> replay_round_bounded o ->
+  INV ih ivs s -> tinv s ->
   match o with
   | OpReplay x cp =>
       (okT (fun sr => step_adm o (snd sr) -> tinv (fst sr)) (step s o) /\
-       replay_earlier_guard s x cp = false) \/
-      (replay_earlier_guard s x cp = true /\ step s o = Panic site_replay_earlier)
+       replay_earlier_guard s x cp = false /\ replay_fuel_guard s x cp = false) \/
+      (replay_earlier_guard s x cp = true /\ step s o = Panic site_replay_earlier) \/
+      (replay_fuel_guard s x cp = true /\ step s o = Panic site_replay_fuel)
   | _ => okT (fun sr => step_adm o (snd sr) -> tinv (fst sr)) (step s o)
   end.
 Proof.
-  intros HI HT Hb. destruct o as [p|m|m|x cp]; cbn [step step_adm].
+  intros HI HT. destruct o as [p|m|m|x cp]; cbn [step step_adm].
   - apply (handle_ph_total ih ivs); assumption.
   - eapply okT_mono; [apply handle_votes_total; exact HT|]. cbv beta. intros sr H _. exact H.
   - eapply okT_mono; [apply handle_votes_total; exact HT|]. cbv beta. intros sr H _. exact H.
-  - destruct (handle_replay_total ih ivs s x cp HI HT Hb) as [(H&G1)|H].
-    + left. split; [|exact G1]. eapply okT_mono; [exact H|]. cbv beta. intros sr Hsr [Hn _]. apply Hsr, Hn.
-    + right; exact H.
+  - exact (handle_replay_total ih ivs s x cp HI HT).
 Qed.
-
-Lemma step_adm_round_bounded o res : step_adm o res -> replay_round_bounded o.
-Proof. destruct o; cbn; tauto. Qed.
 
 Lemma tinv_step ih ivs s o s' r :
   INV ih ivs s -> tinv s -> step_adm o r -> step s o = Ok (s', r) -> tinv s'.
 Proof.
   intros HI HT Hw Hs.
-  pose proof (step_total ih ivs s o HI HT (step_adm_round_bounded o r Hw)) as H.
+  pose proof (step_total ih ivs s o HI HT) as H.
   assert (G : okT (fun sr => step_adm o (snd sr) -> tinv (fst sr)) (step s o) -> tinv s').
   { intros (x&E&Hx). rewrite Hs in E. inversion E; subst x. exact (Hx Hw). }
   destruct o as [p|m|m|x cp]; try (apply G; exact H).
-  destruct H as [(H&_)|(_&H)]; [apply G; exact H|]; rewrite Hs in H; discriminate.
+  destruct H as [(H&_)|[(_&H)|(_&H)]]; [apply G; exact H| |]; rewrite Hs in H; discriminate.
 Qed.
 
 Lemma tinv_init ih ivs : pow_ok ivs -> tinv (init_state ih ivs).
@@ -739,6 +755,31 @@ Proof.
 Qed.
 
 (** ** The theorem *)
+
+(** for ANY replayed round: the two guards are exact *)
+Theorem kernel_messages_never_panic_any_round ih ivs s o :
+  1 <= ih -> vs_ok ivs = true -> 0 < sum_pows (vs_pows ivs) ->
+  reachable_a ih ivs s ->
+  match o with
+  | OpPH _ | OpPrevote _ | OpPrecommit _ => exists s' r, step s o = Ok (s', r)
+  | OpReplay x cp =>
+      ((exists s' r, step s o = Ok (s', r)) /\
+       replay_earlier_guard s x cp = false /\ replay_fuel_guard s x cp = false) \/
+      (replay_earlier_guard s x cp = true /\ step s o = Panic site_replay_earlier) \/
+      (replay_fuel_guard s x cp = true /\ step s o = Panic site_replay_fuel)
+  end.
+Proof.
+  intros Hi Hok Hp Hr.
+  pose proof (reachable_tinv ih ivs s Hi Hok Hp Hr) as HT.
+  pose proof (reachable_INV ih ivs s Hi Hok (reachable_a_b _ _ _ Hr)) as HI.
+  pose proof (step_total ih ivs s o HI HT) as H.
+  assert (G : okT (fun sr => step_adm o (snd sr) -> tinv (fst sr)) (step s o) -> exists s' r, step s o = Ok (s', r)).
+  { intros ([s' r]&E&_). exists s', r. exact E. }
+  destruct o as [p|m|m|x cp]; try (apply G; exact H).
+  destruct H as [(H&G1)|[H|H]]; [left; split; [apply G; exact H|exact G1]|right; left; exact H|right; right; exact H].
+Qed.
+
+(** for a uint32 replayed round only the earlier-round site remains *)
 Theorem kernel_messages_never_panic ih ivs s o :
   1 <= ih -> vs_ok ivs = true -> 0 < sum_pows (vs_pows ivs) ->
   reachable_a ih ivs s -> replay_round_bounded o ->
@@ -750,13 +791,12 @@ Theorem kernel_messages_never_panic ih ivs s o :
   end.
 Proof.
   intros Hi Hok Hp Hr Hb.
-  pose proof (reachable_tinv ih ivs s Hi Hok Hp Hr) as HT.
-  pose proof (reachable_INV ih ivs s Hi Hok (reachable_a_b _ _ _ Hr)) as HI.
-  pose proof (step_total ih ivs s o HI HT Hb) as H.
-  assert (G : okT (fun sr => step_adm o (snd sr) -> tinv (fst sr)) (step s o) -> exists s' r, step s o = Ok (s', r)).
-  { intros ([s' r]&E&_). exists s', r. exact E. }
-  destruct o as [p|m|m|x cp]; try (apply G; exact H).
-  destruct H as [(H&G1)|H]; [left; split; [apply G; exact H|exact G1]|right; exact H].
+  pose proof (kernel_messages_never_panic_any_round ih ivs s o Hi Hok Hp Hr) as H.
+  destruct o as [p|m|m|x cp]; try exact H.
+  pose proof (replay_fuel_guard_false ih ivs s x cp
+                (reachable_cinv ih ivs s Hi Hok (reachable_a_b _ _ _ Hr)) Hb) as Hf.
+  destruct H as [(H&G1&_)|[H|(G&_)]]; [left; split; assumption|right; exact H|].
+  rewrite Hf in G. discriminate.
 Qed.
 
 (** The same for any state satisfying the two invariants (e.g. a [reachable_b] state that happens
@@ -768,14 +808,15 @@ Theorem kernel_total_in_good_states ih ivs s o :
   | _ => exists s' r, step s o = Ok (s', r)
   end.
 Proof.
-  intros HI HT Hb. pose proof (step_total ih ivs s o HI HT Hb) as H.
+  intros HI HT Hb. pose proof (step_total ih ivs s o HI HT) as H.
   assert (G : okT (fun sr => step_adm o (snd sr) -> tinv (fst sr)) (step s o) -> exists s' r, step s o = Ok (s', r)).
   { intros ([s' r]&E&_). exists s', r. exact E. }
   destruct o as [p|m|m|x cp]; try (apply G; exact H).
-  destruct H as [(H&_)|(_&H)]; [left; apply G; exact H|right; exact H].
+  destruct H as [(H&_)|[(_&H)|(Gf&_)]]; [left; apply G; exact H|right; exact H|].
+  rewrite (replay_fuel_guard_false ih ivs s x cp (proj1 HI) Hb) in Gf. discriminate.
 Qed.
 
-(** ** The guard is exact: whenever it holds the handler panics at that site *)
+(** ** The guards are exact: whenever one holds the handler panics at that site *)
 Lemma replay_earlier_panics s x cp :
   replay_earlier_guard s x cp = true -> step s (OpReplay x cp) = Panic site_replay_earlier.
 Proof.
@@ -783,15 +824,45 @@ Proof.
   cbn [step]. rewrite handle_replay_eq. unfold handle_replay'. rewrite H1, H2. reflexivity.
 Qed.
 
+Lemma replay_fuel_guard_panics s x cp :
+  replay_fuel_guard s x cp = true -> step s (OpReplay x cp) = Panic site_replay_fuel.
+Proof.
+  unfold replay_fuel_guard. intros H. apply andb_true_iff in H as [H H3]. apply andb_true_iff in H as [H1 H2].
+  cbn [step]. rewrite handle_replay_eq. unfold handle_replay'. rewrite H1. cbn [negb].
+  apply N.leb_le in H2. destruct (N.ltb_spec (cp_round cp) (v_r (k_vot s))); [lia|].
+  cbv zeta. rewrite H3. reflexivity.
+Qed.
+
+(** ** A rejected replay does not change the state *)
+Theorem replay_rejected_is_identity s x cp s' res :
+  step s (OpReplay x cp) = Ok (s', res) -> res <> 0 -> s' = s.
+Proof.
+  cbn [step]. rewrite handle_replay_eq. unfold handle_replay'.
+  assert (Hsame : forall r0, Ok (s, r0) = Ok (s', res) -> res <> 0 -> s' = s)
+    by (intros r0 E _; inversion E; reflexivity).
+  destruct (negb (hd_height x =? _)); [apply Hsame|].
+  destruct (cp_round cp <? _); [discriminate|]. cbv zeta.
+  destruct (negb (_ && _)); [discriminate|].
+  destruct (negb (hd_ok x)); [apply Hsame|].
+  destruct (negb _ && negb _); [apply Hsame|].
+  destruct (negb (_ && _)); [apply Hsame|].
+  destruct (negb (vs_ok _)); [apply Hsame|].
+  destruct (replay_temp _ x cp) as [temp allv].
+  destruct (negb allv); [apply Hsame|].
+  destruct (pm_get temp (hd_hash x)); [|apply Hsame].
+  unfold bind at 1. destruct (byz_majority _); [|discriminate].
+  destruct (_ <? _); [apply Hsame|].
+  unfold replay_apply, bind. destruct (replay_insert _ _ _); [|discriminate].
+  destruct (check_voting_precommit_shift _); [|discriminate].
+  intros E Hne. inversion E; subst. contradiction.
+Qed.
+
 (** ** The "out of fuel" site of the model is unreachable *)
 Theorem replay_fuel_site_unreachable ih ivs s x cp :
-  1 <= ih -> vs_ok ivs = true -> reachable_b ih ivs s ->
-  hd_height x = v_h (k_vot s) -> v_r (k_vot s) <= cp_round cp -> cp_round cp < two32 ->
-  negb ((v_r (k_vot (replay_jumped s cp)) =? cp_round cp) && (v_h (k_vot (replay_jumped s cp)) =? hd_height x)) = false.
+  1 <= ih -> vs_ok ivs = true -> reachable_b ih ivs s -> cp_round cp < two32 ->
+  replay_fuel_guard s x cp = false.
 Proof.
-  intros Hi Hok Hr Hh Hle Hb.
-  destruct (replay_jumped_reaches ih ivs s cp (reachable_cinv ih ivs s Hi Hok Hr) Hle Hb) as [E1 E2].
-  rewrite E1, E2, Hh, !N.eqb_refl. reflexivity.
+  intros Hi Hok Hr Hb. apply (replay_fuel_guard_false ih ivs); [eapply reachable_cinv; eassumption|exact Hb].
 Qed.
 
 Theorem replay_never_out_of_fuel ih ivs s x cp :
@@ -821,9 +892,8 @@ Lemma replay_fuel_panics ih ivs s x cp :
   cinv ih ivs s -> hd_height x = v_h (k_vot s) -> v_r (k_vot s) < two32 -> two32 <= cp_round cp ->
   step s (OpReplay x cp) = Panic site_replay_fuel.
 Proof.
-  intros H Hh Hlt Hge. cbn [step]. rewrite handle_replay_eq. unfold handle_replay'.
-  rewrite Hh, N.eqb_refl. cbn [negb].
-  destruct (N.ltb_spec (cp_round cp) (v_r (k_vot s))) as [Hc|_]; [lia|]. cbv zeta.
+  intros H Hh Hlt Hge. apply replay_fuel_guard_panics. unfold replay_fuel_guard.
+  rewrite Hh, N.eqb_refl. rewrite (proj2 (N.leb_le _ _)) by lia. cbn [andb].
   pose proof (jump_until_round_lt ih ivs (N.to_nat (cp_round cp - v_r (k_vot s))) s (cp_round cp) H Hlt) as Hj.
   fold (replay_jumped s cp) in Hj.
   destruct (N.eqb_spec (v_r (k_vot (replay_jumped s cp))) (cp_round cp)) as [E|_]; [lia|].
@@ -847,7 +917,7 @@ Definition op_bounded_b (o : op) : bool :=
 Definition op_wf_b (o : op) : bool :=
   match o with
   | OpPH p => pow_okb (hd_next (ph_hdr p))
-  | OpReplay x cp => pow_okb (hd_next x) && (cp_round cp <? two32)
+  | OpReplay x cp => pow_okb (hd_next x)
   | _ => true
   end.
 
@@ -855,11 +925,7 @@ Lemma op_bounded_b_ok o : op_bounded_b o = true -> op_bounded o.
 Proof. destruct o; cbn; try (intros _; exact I); intros H; apply N.ltb_lt in H; exact H. Qed.
 
 Lemma op_wf_b_ok o : op_wf_b o = true -> op_wf o.
-Proof.
-  destruct o as [p|m|m|x cp]; cbn; try (intros _; exact I); intros H.
-  - apply pow_okb_ok; exact H.
-  - apply andb_true_iff in H as [H1 H2]. split; [apply pow_okb_ok; exact H1|apply N.ltb_lt; exact H2].
-Qed.
+Proof. destruct o as [p|m|m|x cp]; cbn; try (intros _; exact I); intros H; apply pow_okb_ok; exact H. Qed.
 
 Lemma run_reachable_a ih ivs ops : forall s s',
   reachable_a ih ivs s -> forallb (fun o => op_bounded_b o && op_wf_b o) ops = true ->
@@ -942,18 +1008,26 @@ Qed.
 
 (** ** The former third site (round store refuses the replayed header) no longer panics: the
     header arrives as a proposed header in round 0, the mirror moves to round 1, and the same
-    header is then replayed with a round-1 commit proof: it is filed as a keyless proposed header
-    of round 1 (result 2 here: the empty commit proof carries no power). *)
+    header is then replayed with a valid round-1 commit proof: it is filed as a keyless proposed
+    header of round 1 (WPH) and committed (result 0). *)
 Definition ops_ph_round1 : list op := [OpPH (ex_ph ex_vs ex_vs); OpPrecommit (ex_precommit 1 0 [1] [])].
+Definition ex_cp_round1 : cproof :=
+  mk_cproof 1 [1] [([9], [mk_ssig (keyid_encode 0) (SVote 7 KPrecommit 1 1 [9])])].
 
 Example replay_store_refused_is_ok :
   reachable_a 1 ex_vs (state_after ops_ph_round1) /\
-  exists s', step (state_after ops_ph_round1) (OpReplay (ex_hdr ex_vs ex_vs) (mk_cproof 1 [1] [])) = Ok (s', 2) /\
+  exists s', step (state_after ops_ph_round1) (OpReplay (ex_hdr ex_vs ex_vs) ex_cp_round1) = Ok (s', 0) /\
              In (WPH (fake_ph (ex_hdr ex_vs ex_vs) 1)) (st_log s').
 Proof.
   split; [apply state_after_reachable_a; vm_compute; reflexivity|].
   eexists. split; [vm_compute; reflexivity|]. vm_compute. tauto.
 Qed.
+
+(** a replay with an insufficient (here: empty) commit proof is rejected and changes nothing -
+    not even the round, although the proof is for round 1 and the mirror is in round 0 *)
+Example replay_rejected_example :
+  step (init_state 1 ex_vs) (OpReplay (ex_hdr ex_vs ex_vs) (mk_cproof 1 [1] [])) = Ok (init_state 1 ex_vs, 2).
+Proof. vm_compute. reflexivity. Qed.
 
 (** a replay that is accepted (the Ok branch of the theorem is inhabited as well) *)
 Example replay_accepted_example :
